@@ -57,6 +57,9 @@ def cli_args(a, d):
         args += ['--prob', dec(p['vals'][0])]
     elif p['kind'] == 'list':
         args += ['--prob', ','.join(dec(x) for x in p['vals'])]
+    elif p['step'] == 5 and zlib.crc32(json.dumps(a, sort_keys=True, default=str).encode()) % 3 != 0:
+        # 0.005 is the documented default step: the range may be written min:max
+        args += ['--prob', f"{dec(p['min'])}:{dec(p['max'])}"]
     else:
         args += ['--prob', f"{dec(p['min'])}:{dec(p['max'])}:{dec(p['step'])}"]
     if v['deformation']:
